@@ -5,7 +5,7 @@ MANIFEST.json is generated from this table by py/gen_manifest.py.
 """
 
 ADV = "A-min,B-l0,C-default"
-COVER = "A-min,B-l0,C-default,D-stall12,E-files2,F-anygc,G-mand4-stall2,H-mem64-mand1,I-bytes2k,J-stallbytes"
+COVER = "A-min,B-l0,C-default,D-stall12,E-files2,F-anygc,G-mand4-stall2,H-mem64-mand1,I-bytes2k,J-stallbytes,K-openfiles4"
 
 
 ING = "ing:a,ing:-a,ing:a+b,ing:-a+ab-b,ing:AB,ing:a2-,C,C*,R,V"
